@@ -1,0 +1,47 @@
+//go:build verif
+
+package mem
+
+import (
+	"time"
+
+	"github.com/DrmagicE/gmqtt/persistence/queue"
+)
+
+// VerifShift moves every stored timestamp d into the past, which is what the passage of
+// d looks like to the queue.
+func (q *Queue) VerifShift(d time.Duration) {
+	q.cond.L.Lock()
+	defer q.cond.L.Unlock()
+	for e := q.l.Front(); e != nil; e = e.Next() {
+		el := e.Value.(*queue.Elem)
+		if !el.At.IsZero() {
+			el.At = el.At.Add(-d)
+		}
+		if !el.Expiry.IsZero() {
+			el.Expiry = el.Expiry.Add(-d)
+		}
+	}
+}
+
+// VerifReadWouldBlock reports whether Read would wait for a message.
+func (q *Queue) VerifReadWouldBlock() bool {
+	q.cond.L.Lock()
+	defer q.cond.L.Unlock()
+	return (q.l.Len() == 0 || q.current == nil) && !q.closed
+}
+
+// VerifLen returns the number of stored elements and the index of the next element to read.
+func (q *Queue) VerifLen() (n int, cur int) {
+	q.cond.L.Lock()
+	defer q.cond.L.Unlock()
+	cur = -1
+	i := 0
+	for e := q.l.Front(); e != nil; e = e.Next() {
+		if e == q.current {
+			cur = i
+		}
+		i++
+	}
+	return q.l.Len(), cur
+}
